@@ -27,10 +27,11 @@ Definition regroup (l : list item) : list group :=
   map (fun kv : key * list item => mkgroup (fst (fst kv)) (snd (fst kv)) (map snd (snd kv)))
       (group_by key_leb key_eqb (fun x : item => (flen (snd x), fst x)) l).
 
+Definition rehash_raw (n : nd) (st : stage) (pre : group -> bool) (hf : hash_fn) (gs : list group) : list group :=
+  regroup (arrive n st (hashed_of n st hf (items_of (filter pre gs)))) ++ filter (fun g => negb (pre g)) gs.
+
 Lemma rehash_unfold n st pre post hf gs :
-  rehash n st pre post hf gs
-  = filter post (regroup (arrive n st (hashed_of n st hf (items_of (filter pre gs))))
-                 ++ filter (fun g => negb (pre g)) gs).
+  rehash n st pre post hf gs = filter post (rehash_raw n st pre hf gs).
 Proof. reflexivity. Qed.
 
 Lemma in_items_of gs h f : In (h, f) (items_of gs) <-> exists g, In g gs /\ h = ghash g /\ In f (gfiles g).
@@ -83,17 +84,18 @@ Proof.
     cbn [fst snd] in Hkey. inversion Hkey; subst. auto.
 Qed.
 
-(* what a group in the output of rehash is made of *)
-Lemma rehash_sound n st pre post hf gs g : wf_nd n -> In g (rehash n st pre post hf gs) ->
-  post g = true /\
-  ((In g gs /\ pre g = false) \/
-   (gfiles g <> [] /\ forall f, In f (gfiles g) ->
+(* what a group in the output of rehash (before the post filter) is made of *)
+Definition regrouped_from (pre : group -> bool) (hf : hash_fn) (gs : list group) (g : group) : Prop :=
+  gfiles g <> [] /\ forall f, In f (gfiles g) ->
       exists g0 f0 g1 rep, In g0 gs /\ pre g0 = true /\ In f0 (gfiles g0) /\
                            In g1 gs /\ pre g1 = true /\ In rep (gfiles g1) /\
                            fid rep = fid f0 /\ fdev rep = fdev f0 /\
-                           hf rep (ghash g1) = Some (ghash g, glen g) /\ f = set_len f0 (glen g))).
+                           hf rep (ghash g1) = Some (ghash g, glen g) /\ f = set_len f0 (glen g).
+
+Lemma rehash_raw_sound n st pre hf gs g : wf_nd n -> In g (rehash_raw n st pre hf gs) ->
+  (In g gs /\ pre g = false) \/ regrouped_from pre hf gs g.
 Proof.
-  intros Hnd Hin. rewrite rehash_unfold in Hin. apply filter_In in Hin. destruct Hin as [Hin Hpost]. split; auto.
+  intros Hnd Hin. unfold rehash_raw in Hin.
   apply in_app_or in Hin. destruct Hin as [Hin|Hin].
   - right. apply in_regroup in Hin. destruct Hin as [Hne Hall]. split; auto.
     intros f Hf. destruct (Hall f Hf) as [Hi Hlen].
@@ -106,6 +108,16 @@ Proof.
     exists g0, f0, g1, rep. tauto.
   - left. apply filter_In in Hin. destruct Hin as [Hin Hp]. apply negb_true_iff in Hp. auto.
 Qed.
+
+Lemma rehash_sound n st pre post hf gs g : wf_nd n -> In g (rehash n st pre post hf gs) ->
+  post g = true /\ ((In g gs /\ pre g = false) \/ regrouped_from pre hf gs g).
+Proof.
+  intros Hnd Hin. rewrite rehash_unfold in Hin. apply filter_In in Hin. destruct Hin as [Hin Hpost]. split; auto.
+  eapply rehash_raw_sound; eauto.
+Qed.
+
+Lemma rehash_in_raw n st pre post hf gs g : In g (rehash n st pre post hf gs) -> In g (rehash_raw n st pre hf gs).
+Proof. rewrite rehash_unfold. intros H. apply filter_In in H. tauto. Qed.
 
 (* ------------------------------------------------------------------ unique_count and one_id *)
 Definition one_id (fs : list file) : Prop := forall f f', In f fs -> In f' fs -> fid f = fid f'.
@@ -242,11 +254,7 @@ Section Sound.
     Lemma regrouped_files (hf : hash_fn) (newh : file -> hash -> hash) pre gs g :
       (forall f old h l, hf f old = Some (h, l) -> h = newh f old /\ l = flen f) ->
       (forall g0, In g0 gs -> gbase g0) ->
-      (gfiles g <> [] /\ forall f, In f (gfiles g) ->
-        exists g0 f0 g1 rep, In g0 gs /\ pre g0 = true /\ In f0 (gfiles g0) /\
-                             In g1 gs /\ pre g1 = true /\ In rep (gfiles g1) /\
-                             fid rep = fid f0 /\ fdev rep = fdev f0 /\
-                             hf rep (ghash g1) = Some (ghash g, glen g) /\ f = set_len f0 (glen g)) ->
+      regrouped_from pre hf gs g ->
       gbase g /\ forall f, In f (gfiles g) ->
         exists g1 rep, In g1 gs /\ pre g1 = true /\ In rep (gfiles g1) /\ In rep scanned /\
                        fid rep = fid f /\ fdev rep = fdev f /\ ghash g = newh rep (ghash g1) /\
@@ -284,11 +292,11 @@ Section Sound.
       destruct (fails n StContents f); cbn [option_map]; [discriminate|]. intros E. inversion E. auto.
     Qed.
 
-    Lemma prefix_stage gs g : (forall g0, In g0 gs -> gbase g0) ->
-      In g (group_by_prefix o c n P gs) -> I1 g.
+    Lemma prefix_stage_raw gs g : (forall g0, In g0 gs -> gbase g0) ->
+      In g (rehash_raw n StPrefix pre_multi (hf_prefix o c n P) (map sort_group_by_id gs)) -> I1 g.
     Proof.
-      intros Hgs Hin. unfold group_by_prefix in Hin.
-      apply (rehash_sound _ _ _ _ _ _ _ Hnd) in Hin. destruct Hin as [_ [[Hin Hpre']|Hreg]].
+      intros Hgs Hin.
+      apply (rehash_raw_sound _ _ _ _ _ _ Hnd) in Hin. destruct Hin as [[Hin Hpre']|Hreg].
       - apply in_map_iff in Hin. destruct Hin as (g0 & <- & Hg0). split; [apply gbase_sort; auto|].
         left. apply unique_count_le1. exact Hpre'.
       - apply (regrouped_files (hf_prefix o c n P) (fun f _ => Hpre f) pre_multi (map sort_group_by_id gs) g) in Hreg.
@@ -299,14 +307,18 @@ Section Sound.
         + intros g0 Hg0. apply in_map_iff in Hg0. destruct Hg0 as (g0' & <- & ?). apply gbase_sort; auto.
     Qed.
 
-    Lemma suffix_stage thr gs g : (forall g0, In g0 gs -> I1 g0) ->
+    Lemma prefix_stage gs g : (forall g0, In g0 gs -> gbase g0) ->
+      In g (group_by_prefix o c n P gs) -> I1 g.
+    Proof. intros Hgs Hin. apply (prefix_stage_raw gs g Hgs). apply rehash_in_raw in Hin. exact Hin. Qed.
+
+    Lemma suffix_stage_raw thr gs g : (forall g0, In g0 gs -> I1 g0) ->
       (forall g0 f, In g0 (map sort_group_by_id gs) -> In f (gfiles g0) -> suffix_threshold (dkind c (fdev f)) <= thr) ->
-      In g (rehash n StSuffix (pre_suffix thr) (matches c) (hf_suffix o n S) (map sort_group_by_id gs)) -> I2 g.
+      In g (rehash_raw n StSuffix (pre_suffix thr) (hf_suffix o n S) (map sort_group_by_id gs)) -> I2 g.
     Proof.
       intros Hgs Hthr Hin.
       assert (Hgs' : forall g0, In g0 (map sort_group_by_id gs) -> I1 g0).
       { intros g0 Hg0. apply in_map_iff in Hg0. destruct Hg0 as (g0' & <- & ?). apply I1_sort; auto. }
-      apply (rehash_sound _ _ _ _ _ _ _ Hnd) in Hin. destruct Hin as [_ [[Hin Hpre']|Hreg]].
+      apply (rehash_raw_sound _ _ _ _ _ _ Hnd) in Hin. destruct Hin as [[Hin Hpre']|Hreg].
       - destruct (Hgs' g Hin) as [Hb Hk]. split; auto. tauto.
       - apply (regrouped_files (hf_suffix o n S) (fun f old => hxor old (Hsfx f)) (pre_suffix thr) (map sort_group_by_id gs) g) in Hreg.
         + destruct Hreg as [Hb Hall]. split; auto. right. right. split; intros f Hf.
@@ -324,13 +336,18 @@ Section Sound.
         + intros g0 Hg0. apply Hgs'; auto.
     Qed.
 
-    Lemma contents_stage gs g : (forall g0, In g0 gs -> I2 g0) ->
-      In g (group_by_contents o c n P gs) -> I3 g.
+    Lemma suffix_stage thr gs g : (forall g0, In g0 gs -> I1 g0) ->
+      (forall g0 f, In g0 (map sort_group_by_id gs) -> In f (gfiles g0) -> suffix_threshold (dkind c (fdev f)) <= thr) ->
+      In g (rehash n StSuffix (pre_suffix thr) (matches c) (hf_suffix o n S) (map sort_group_by_id gs)) -> I2 g.
+    Proof. intros Hgs Hthr Hin. apply (suffix_stage_raw thr gs g Hgs Hthr). apply rehash_in_raw in Hin. exact Hin. Qed.
+
+    Lemma contents_stage_raw gs g : (forall g0, In g0 gs -> I2 g0) ->
+      In g (rehash_raw n StContents (pre_contents P) (hf_contents o n) (map sort_group_by_id gs)) -> I3 g.
     Proof.
-      intros Hgs Hin. unfold group_by_contents in Hin.
+      intros Hgs Hin.
       assert (Hgs' : forall g0, In g0 (map sort_group_by_id gs) -> I2 g0).
       { intros g0 Hg0. apply in_map_iff in Hg0. destruct Hg0 as (g0' & <- & ?). apply I2_sort; auto. }
-      apply (rehash_sound _ _ _ _ _ _ _ Hnd) in Hin. destruct Hin as [_ [[Hin Hpre']|Hreg]].
+      apply (rehash_raw_sound _ _ _ _ _ _ Hnd) in Hin. destruct Hin as [[Hin Hpre']|Hreg].
       - destruct (Hgs' g Hin) as [Hb Hk]. split; auto.
         unfold pre_contents in Hpre'. apply andb_false_iff in Hpre'. destruct Hpre' as [Hu|Hp].
         + left. apply unique_count_le1. auto.
@@ -342,6 +359,10 @@ Section Sound.
         + apply hf_contents_spec.
         + intros g0 Hg0. destruct (Hgs' g0 Hg0). auto.
     Qed.
+
+    Lemma contents_stage gs g : (forall g0, In g0 gs -> I2 g0) ->
+      In g (group_by_contents o c n P gs) -> I3 g.
+    Proof. intros Hgs Hin. apply (contents_stage_raw gs g Hgs). apply rehash_in_raw in Hin. exact Hin. Qed.
   End Stages.
 
   (* the hash keys that can decide a final group: the hash of the whole file, or, for files shorter
